@@ -3,6 +3,7 @@ package main
 
 import (
 	"fmt"
+	"go/ast"
 	"go/constant"
 	"go/token"
 	"go/types"
@@ -45,13 +46,14 @@ type Verifier struct {
 	storedGlobals map[*ssa.Global]bool
 	assumptions map[string]bool
 	inlineDepthMax int
+	sliceGlobalArr map[*ssa.Global]int64
 }
 
 var theV *Verifier
 
 func newVerifier(p *Program, lib *SpecLib) *Verifier {
 	v := &Verifier{prog: p, lib: lib, finfo: map[*ssa.Function]*FuncInfo{}, globals: map[*ssa.Global]int64{}, strConsts: map[string]int64{},
-		nextNeg: -1, typeTags: map[string]int64{}, tagTypes: map[int64]types.Type{}, assumptions: map[string]bool{}, inlineDepthMax: 6}
+		nextNeg: -1, typeTags: map[string]int64{}, tagTypes: map[int64]types.Type{}, assumptions: map[string]bool{}, inlineDepthMax: 6, sliceGlobalArr: map[*ssa.Global]int64{}}
 	theV = v
 	v.scanGlobals()
 	return v
@@ -170,7 +172,33 @@ func (v *Verifier) readOnlyUse(in ssa.Instruction, a ssa.Value, depth int) bool 
 	}
 	switch x := in.(type) {
 	case *ssa.UnOp:
-		return x.Op == token.MUL
+		if x.Op != token.MUL {
+			return false
+		}
+		if _, isSl := x.Type().Underlying().(*types.Slice); isSl && ssa.Value(x) != a {
+			// the loaded slice header: its backing array must only be read
+			for _, r := range *x.Referrers() {
+				switch u := r.(type) {
+				case *ssa.DebugRef:
+				case *ssa.IndexAddr:
+					for _, r2 := range *u.Referrers() {
+						if lo, ok := r2.(*ssa.UnOp); !ok || lo.Op != token.MUL {
+							if _, dbg := r2.(*ssa.DebugRef); !dbg {
+								return false
+							}
+						}
+					}
+				case *ssa.Call:
+					b, ok := u.Call.Value.(*ssa.Builtin)
+					if !ok || (b.Name() != "len" && b.Name() != "cap") {
+						return false
+					}
+				default:
+					return false
+				}
+			}
+		}
+		return true
 	case *ssa.IndexAddr, *ssa.FieldAddr:
 		val := in.(ssa.Value)
 		for _, r := range *val.Referrers() {
@@ -228,6 +256,27 @@ func (v *Verifier) initGlobalAxioms(g *ssa.Global, id int64) {
 	vals, ok := v.prog.globalInit(g)
 	st0 := &State{H: map[string]*Term{}}
 	ref := IntLit(id)
+	if !ok {
+		// slice-typed global initialised by a constant composite literal: the
+		// backing array gets its own (negative) reference
+		if sl, isSl := elemT.Underlying().(*types.Slice); isSl {
+			if cells, n, ok2 := v.prog.globalSliceInit(g, sl.Elem()); ok2 {
+				arr := v.nextNeg
+				v.nextNeg--
+				aref := IntLit(arr)
+				v.constGlobals[g] = true
+				v.axioms = append(v.axioms,
+					Eq(st0.loadCell("int", ref, IntLit(0)), aref), Eq(st0.loadCell("int", ref, IntLit(1)), IntLit(0)),
+					Eq(st0.loadCell("int", ref, IntLit(2)), IntLit(n)), Eq(st0.loadCell("int", ref, IntLit(3)), IntLit(n)))
+				ks := cellKinds(sl.Elem())
+				for i, c := range cells {
+					v.axioms = append(v.axioms, Eq(st0.loadCell(ks[i%len(ks)], aref, IntLit(int64(i))), c))
+				}
+				v.sliceGlobalArr[g] = arr
+				return
+			}
+		}
+	}
 	if ok {
 		ks := cellKinds(elemT)
 		if len(vals) == len(ks) {
@@ -726,33 +775,29 @@ func (fr *Frame) execLoop(l *Loop) {
 	}
 	if n > 0 {
 		inc := entry
-		for it := 0; ; it++ {
+		for it := 0; it <= n; it++ {
 			inc = liveEdges(inc)
 			if len(inc) == 0 {
 				break
 			}
-			if it == n && fr.u.unrollAll > 0 {
-				// bounded search: executions needing more iterations are not explored
-				for _, e := range inc {
-					fr.u.facts = append(fr.u.facts, Not(e.cond))
-				}
-				break
-			}
-			if it == n {
-				var cs []*Term
-				for _, e := range inc {
-					cs = append(cs, e.cond)
-				}
-				sv := fr.reach
-				fr.reach = True
-				fr.u.addObl(fmt.Sprintf("%s#unwind.loop%d", fr.oblPrefix(), l.Ordinal), "unwind", True, Not(Or(cs...)), fr.u.v.prog.pos(l.Pos), fmt.Sprintf("loop %d needs at most %d iterations", l.Ordinal, n))
-				fr.reach = sv
-				break
-			}
+			// visit number it+1 of the head; the (n+1)-th visit may only leave the loop
 			fr.pending[l.Head] = inc
 			fr.execRegion(l)
 			inc = fr.pending[l.Head]
 			delete(fr.pending, l.Head)
+		}
+		inc = liveEdges(inc)
+		if len(inc) > 0 {
+			var cs []*Term
+			for _, e := range inc {
+				cs = append(cs, e.cond)
+			}
+			if fr.u.unrollAll > 0 {
+				// bounded search: executions needing more iterations are not explored
+				fr.u.facts = append(fr.u.facts, Not(Or(cs...)))
+			} else {
+				fr.u.addObl(fmt.Sprintf("%s#unwind.loop%d", fr.oblPrefix(), l.Ordinal), "unwind", True, Not(Or(cs...)), fr.u.v.prog.pos(l.Pos), fmt.Sprintf("loop %d needs at most %d iterations", l.Ordinal, n))
+			}
 		}
 		return
 	}
@@ -833,6 +878,43 @@ func (fr *Frame) execCutLoop(l *Loop, ls *LoopSpec, entry []*Edge) {
 		}
 		return out
 	}
+	// automatic invariant and variant of `range` loops over slices/strings/ints:
+	// -1 <= rangeindex && rangeindex+1 <= len  (checked like any other invariant)
+	var riPhi *ssa.Phi
+	var riLen ssa.Value
+	for _, p := range phis {
+		if p.Comment != "rangeindex" || p.Referrers() == nil {
+			continue
+		}
+		for _, r := range *p.Referrers() {
+			inc, ok := r.(*ssa.BinOp)
+			if !ok || inc.Op != token.ADD || inc.Referrers() == nil {
+				continue
+			}
+			for _, r2 := range *inc.Referrers() {
+				if cmp, ok := r2.(*ssa.BinOp); ok && cmp.Op == token.LSS && cmp.X == ssa.Value(inc) {
+					riPhi, riLen = p, cmp.Y
+				}
+			}
+		}
+	}
+	autoInv := func(phiVals map[*ssa.Phi]*Val, env map[ssa.Value]*Val) (*Term, *Term) {
+		if riPhi == nil {
+			return nil, nil
+		}
+		var lv *Val
+		if c, ok := riLen.(*ssa.Const); ok {
+			lv = fr.constVal(c)
+		} else {
+			lv = env[riLen]
+		}
+		if lv == nil {
+			return nil, nil
+		}
+		ri := canonVal(phiVals[riPhi]).S
+		ln := canonVal(lv).S
+		return And(Le(IntLit(-1), ri), Le(Add(ri, IntLit(1)), ln)), Sub(ln, Add(ri, IntLit(1)))
+	}
 	cnt := map[*ssa.BasicBlock]int{}
 	for _, e := range entry {
 		pv := map[*ssa.Phi]*Val{}
@@ -843,6 +925,9 @@ func (fr *Frame) execCutLoop(l *Loop, ls *LoopSpec, entry []*Edge) {
 		}
 		for i, t := range evalInv(e, pv, e.st, e.env) {
 			u.addObl(fmt.Sprintf("%s.inv%d.entry", lname, i+1), "loop.inv.entry", e.cond, t, pos, ls.Invariants[i].Src)
+		}
+		if t, _ := autoInv(pv, e.env); t != nil {
+			u.addObl(fmt.Sprintf("%s.rangeinv.entry", lname), "loop.inv.entry", e.cond, t, pos, "range index within bounds (automatic)")
 		}
 	}
 	// 2. havoc
@@ -887,15 +972,24 @@ func (fr *Frame) execCutLoop(l *Loop, ls *LoopSpec, entry []*Edge) {
 	}
 	phiVals := map[*ssa.Phi]*Val{}
 	for _, p := range phis {
-		hv := freshVal(p.Type(), "phi!"+strings.ReplaceAll(p.Comment, " ", "_"))
-		u.facts = append(u.facts, validFacts(hv, st.Next, nil)...)
-		registerBelow(hv, st.Next)
-		hv = fr.localVal(p, hv)
+		var hv *Val
+		if fr.fi.BVInts[p] && isGoInt(p.Type()) {
+			// an int kept as a 64-bit word in this function: havoc it as a word
+			hv = &Val{K: VScalar, T: p.Type(), S: Fresh("phi!"+strings.ReplaceAll(p.Comment, " ", "_"), BVS(64))}
+		} else {
+			hv = freshVal(p.Type(), "phi!"+strings.ReplaceAll(p.Comment, " ", "_"))
+			u.facts = append(u.facts, validFacts(hv, st.Next, nil)...)
+			registerBelow(hv, st.Next)
+		}
 		phiVals[p] = hv
 	}
 	for i, t := range evalInv(nil, phiVals, st, env) {
 		_ = i
 		u.assume(reach, t)
+	}
+	autoHead, autoDec := autoInv(phiVals, env)
+	if autoHead != nil {
+		u.assume(reach, autoHead)
 	}
 	headSt := st.clone()
 	// variant at head
@@ -936,6 +1030,12 @@ func (fr *Frame) execCutLoop(l *Loop, ls *LoopSpec, entry []*Edge) {
 		for i, t := range evalInv(e, pv, e.st, e.env) {
 			u.addObl(fmt.Sprintf("%s.inv%d.preserve", lname, i+1), "loop.inv.preserve", e.cond, t, pos, ls.Invariants[i].Src)
 		}
+		if t, d1 := autoInv(pv, e.env); t != nil {
+			u.addObl(fmt.Sprintf("%s.rangeinv.preserve", lname), "loop.inv.preserve", e.cond, t, pos, "range index within bounds (automatic)")
+			if dec0 == nil {
+				u.addObl(fmt.Sprintf("%s.decreases", lname), "loop.dec", e.cond, And(Lt(d1, autoDec), Le(IntLit(0), autoDec)), pos, "range loop variant (automatic)")
+			}
+		}
 		if dec0 != nil {
 			cenv := fr.loopEnv(l, phis, pv, e.st, e.env)
 			cv, err := cenv.safeEval(ls.Decreases.E)
@@ -968,7 +1068,7 @@ func (fr *Frame) loopEnv(l *Loop, phis []*ssa.Phi, phiVals map[*ssa.Phi]*Val, st
 			cenv.vars["$i"] = cvInt(Add(canonVal(v).S, IntLit(1)))
 			continue
 		}
-		cenv.vars[n] = cvOfVal(canonVal(v))
+		cenv.vars[n] = cvOfVal(v)
 	}
 	base := cenv.resolve
 	cenv.resolve = func(name string) *CV {
@@ -1050,7 +1150,7 @@ func (fr *Frame) resolveLocal(name string, at *ssa.BasicBlock, env map[ssa.Value
 		if c, ok := best.(*ssa.Const); ok {
 			return cvOfVal(canonVal(fr.constVal(c)))
 		}
-		return cvOfVal(canonVal(env[best]))
+		return cvOfVal(env[best])
 	}
 	return nil
 }
@@ -1586,4 +1686,43 @@ func debugf(f string, a ...interface{}) {
 	if os.Getenv("GOVC_DEBUG") != "" {
 		fmt.Fprintf(os.Stderr, f+"\n", a...)
 	}
+}
+
+// globalSliceInit: constant elements of `var g = []T{...}`.
+func (p *Program) globalSliceInit(g *ssa.Global, elem types.Type) ([]*Term, int64, bool) {
+	obj, ok := g.Object().(*types.Var)
+	if !ok {
+		return nil, 0, false
+	}
+	for _, pk := range p.allPackages() {
+		if pk.Types != obj.Pkg() {
+			continue
+		}
+		for id, o := range pk.TypesInfo.Defs {
+			if o != obj {
+				continue
+			}
+			for _, f := range pk.Syntax {
+				if f.Pos() <= id.Pos() && id.Pos() <= f.End() {
+					vs := findValueSpec(f, id)
+					if vs == nil {
+						return nil, 0, false
+					}
+					for i, n := range vs.Names {
+						if n == id && i < len(vs.Values) {
+							cl, ok := vs.Values[i].(*ast.CompositeLit)
+							if !ok {
+								return nil, 0, false
+							}
+							n := int64(len(cl.Elts))
+							arrT := types.NewArray(elem, n)
+							cells, ok := constCells(pk.TypesInfo, cl, arrT)
+							return cells, n, ok
+						}
+					}
+				}
+			}
+		}
+	}
+	return nil, 0, false
 }
